@@ -199,10 +199,161 @@ def return_temporaries(src: str) -> str:
     return ast.unparse(tree) + '\n'
 
 
+class _SplitConjunctions(ast.NodeTransformer):
+    """`if a and b: X` (no else)  ->  `if a:` `if b: X`"""
+
+    def visit_If(self, node):
+        self.generic_visit(node)
+        if not node.orelse and isinstance(node.test, ast.BoolOp) and isinstance(node.test.op, ast.And) and \
+                len(node.test.values) == 2:
+            inner = ast.If(test=node.test.values[1], body=node.body, orelse=[])
+            return ast.copy_location(ast.If(test=node.test.values[0], body=[inner], orelse=[]), node)
+        return node
+
+
+def split_conjunctions(src: str) -> str:
+    tree = _SplitConjunctions().visit(ast.parse(src))
+    ast.fix_missing_locations(tree)
+    return ast.unparse(tree) + '\n'
+
+
+class _WhileTrue(ast.NodeTransformer):
+    """`while c: B` (no else, c not a constant)  ->  `while True:` `if not c: break` B"""
+
+    def visit_While(self, node):
+        self.generic_visit(node)
+        if node.orelse or isinstance(node.test, ast.Constant):
+            return node
+        guard = ast.If(test=ast.UnaryOp(op=ast.Not(), operand=node.test), body=[ast.Break()], orelse=[])
+        return ast.copy_location(ast.While(test=ast.Constant(value=True), body=[guard] + node.body, orelse=[]), node)
+
+
+def while_true(src: str) -> str:
+    tree = _WhileTrue().visit(ast.parse(src))
+    ast.fix_missing_locations(tree)
+    return ast.unparse(tree) + '\n'
+
+
+class _ExpandAugAssign(ast.NodeTransformer):
+    """`x += <int literal>` / `x -= <int literal>` on a plain local name  ->  `x = x + k`"""
+
+    def visit_AugAssign(self, node):
+        if isinstance(node.target, ast.Name) and isinstance(node.op, (ast.Add, ast.Sub)) and \
+                isinstance(node.value, ast.Constant) and isinstance(node.value.value, int) and \
+                not isinstance(node.value.value, bool):
+            return ast.copy_location(ast.Assign(
+                targets=[ast.Name(id=node.target.id, ctx=ast.Store())],
+                value=ast.BinOp(left=ast.Name(id=node.target.id, ctx=ast.Load()), op=node.op, right=node.value)), node)
+        return node
+
+
+def expand_augassign(src: str) -> str:
+    tree = _ExpandAugAssign().visit(ast.parse(src))
+    ast.fix_missing_locations(tree)
+    return ast.unparse(tree) + '\n'
+
+
+class _HoistFirstArgument(ast.NodeTransformer):
+    """`f(g(x), ...)` as a statement / assignment value / return value, g(x) the first argument and itself a call
+    ->  `_arg_N = g(x)` `f(_arg_N, ...)`.  The callee expression of f is a name or an attribute chain (no side
+    effects), so the evaluation order is unchanged."""
+
+    def __init__(self):
+        self.n = 0
+
+    def _simple_callee(self, f):
+        while isinstance(f, ast.Attribute):
+            f = f.value
+        return isinstance(f, ast.Name)
+
+    def _hoist(self, call):
+        if isinstance(call, ast.Call) and self._simple_callee(call.func) and call.args and \
+                isinstance(call.args[0], ast.Call) and not isinstance(call.args[0].func, ast.Lambda):
+            inner = call.args[0]
+            if any(isinstance(x, (ast.Await, ast.Yield, ast.YieldFrom, ast.NamedExpr)) for x in ast.walk(inner)):
+                return None
+            if isinstance(call.func, ast.Name) and call.func.id in ('super', 'isinstance', 'len'):
+                return None
+            self.n += 1
+            name = '_arg_%d' % self.n
+            pre = ast.Assign(targets=[ast.Name(id=name, ctx=ast.Store())], value=inner)
+            call.args[0] = ast.Name(id=name, ctx=ast.Load())
+            return pre
+        return None
+
+    def _block(self, stmts):
+        out = []
+        for st in stmts:
+            for field in ('body', 'orelse', 'finalbody'):
+                if hasattr(st, field) and isinstance(getattr(st, field), list) and not isinstance(
+                        st, (ast.FunctionDef, ast.AsyncFunctionDef, ast.ClassDef)):
+                    setattr(st, field, self._block(getattr(st, field)))
+            if isinstance(st, ast.Try):
+                for h in st.handlers:
+                    h.body = self._block(h.body)
+            pre = None
+            if isinstance(st, ast.Expr):
+                pre = self._hoist(st.value)
+            elif isinstance(st, ast.Assign) and len(st.targets) == 1:
+                pre = self._hoist(st.value)
+            elif isinstance(st, ast.Return) and st.value is not None:
+                pre = self._hoist(st.value)
+            if pre is not None:
+                out.append(ast.copy_location(pre, st))
+            out.append(st)
+        return out
+
+    def visit_FunctionDef(self, node):
+        self.generic_visit(node)
+        node.body = self._block(node.body)
+        return node
+
+    visit_AsyncFunctionDef = visit_FunctionDef
+
+
+def hoist_first_argument(src: str) -> str:
+    tree = _HoistFirstArgument().visit(ast.parse(src))
+    ast.fix_missing_locations(tree)
+    return ast.unparse(tree) + '\n'
+
+
+class _GuardClause(ast.NodeTransformer):
+    """a function whose last statement is `if c: BODY` (no else) and that returns nothing  ->  `if not c: return` BODY"""
+
+    def visit_FunctionDef(self, node):
+        self.generic_visit(node)
+        if any(isinstance(n, (ast.Yield, ast.YieldFrom)) for n in ast.walk(node)):
+            return node
+        last = node.body[-1] if node.body else None
+        if isinstance(last, ast.If) and not last.orelse and len(node.body) > 1 and \
+                not any(isinstance(n, ast.Return) and n.value is not None for n in ast.walk(node)):
+            guard = ast.If(test=ast.UnaryOp(op=ast.Not(), operand=last.test), body=[ast.Return(value=None)], orelse=[])
+            node.body = node.body[:-1] + [ast.copy_location(guard, last)] + last.body
+        return node
+
+    visit_AsyncFunctionDef = visit_FunctionDef
+
+
+def guard_clauses(src: str) -> str:
+    tree = _GuardClause().visit(ast.parse(src))
+    ast.fix_missing_locations(tree)
+    return ast.unparse(tree) + '\n'
+
+
+# not in the default set: the path interpreter unrolls a loop once and decides the exit at the loop head, so a loop
+# rewritten as `while True: if not c: break` puts the exit beyond its horizon; the rules that read loop tests answer
+# with an analysis error (exit 2) on such a tree, not with a verdict.  Kept for `twin_sweep.py --transforms while-true`.
+OPTIONAL_TRANSFORMS = {'while-true': while_true}
+
+
 TRANSFORMS = {
     'reformat': reformat,
     'rename-locals': rename_locals,
     'invert-ifs': invert_ifs,
     'insert-logging': insert_logging,
     'return-temporaries': return_temporaries,
+    'split-conjunctions': split_conjunctions,
+    'expand-augassign': expand_augassign,
+    'hoist-first-argument': hoist_first_argument,
+    'guard-clauses': guard_clauses,
 }
